@@ -136,6 +136,7 @@ def explore(rep, br, tier, seed):
                         {"codepoints": s}, impl=r, replay="''.join(map(chr, codepoints)).encode('bk')")
     # end to end through the assembler
     e2e(rep, rng, acc, tier)
+    e2e_exhaustive(rep, acc, tier)
 
 
 def e2e(rep, rng, acc, tier):
@@ -186,3 +187,88 @@ def e2e(rep, rng, acc, tier):
                 rep.violate(f"e2e:{kind}:{s}", "an unencodable character did not surface as an 'invalid-character' assembly error",
                             {"kind": kind, "codepoints": s}, impl={"outcome": o["outcome"], "code": o.get("code"), "errors": errs})
     rep.sample({"e2e": cases[0], "impl": {k: outs[0][k] for k in ("outcome", "code")}})
+
+
+def _batch_job(args):
+    """One program of N lines, one code point per line; returns per line (kind-of-outcome, byte or None)."""
+    kind, cps = args
+    lines = []
+    for c in cps:
+        ch = chr(c)
+        if kind == "ascii":
+            lines.append('.ascii "%s"' % ch)
+        elif kind == "asciz":
+            lines.append('.asciz /%s/' % ch)
+        else:
+            lines.append(".byte '%s" % ch)
+    src = "\n".join(lines) + "\n"
+    o = impl.assemble([("t.mac", src)])
+    bad_lines = set()
+    other = []
+    for sev, ident, spans in o["diags"]:
+        if sev == "warning":
+            continue
+        if ident == "invalid-character" and spans:
+            bad_lines.add(int(spans[0][3].split(":")[0]))
+        else:
+            other.append(ident)
+    return {"outcome": o["outcome"], "bad_lines": sorted(bad_lines), "other": other, "code": o.get("code"), "crash": o.get("crash")}
+
+
+def e2e_exhaustive(rep, acc, tier):
+    """Every code point (quick: the BMP; thorough: all planes) through '.ascii', '.asciz' and a character literal,
+    in batches of one code point per line: a code point outside the table must yield an invalid-character error on
+    ITS line; code points inside the table must yield exactly their byte.  (Catches e.g. a normalisation or
+    'errors=replace' step between the source text and the codec.)"""
+    accm = dict(acc)
+    top = 0x10000 if tier == "quick" else 0x110000
+    skip = set(range(0xD800, 0xE000)) | {0x0A, 0x0D, 0x22, 0x5C, 0x2F, 0x27, 0x09, 0x3B, 0x00}
+    # characters that terminate or alter the literal syntax are exercised by C06's escape sweep instead
+    white = {c for c in range(top) if chr(c).strip() == ""}
+    cps_all = [c for c in range(top) if c not in skip and c not in white]
+    outside = [c for c in cps_all if c not in accm]
+    inside = [c for c in cps_all if c in accm]
+    B = 64
+    jobs = []
+    kinds = ["ascii"] if tier == "quick" else ["ascii", "asciz", "char"]
+    for kind in kinds:
+        for i in range(0, len(outside), B):
+            jobs.append((kind, outside[i:i + B]))
+    for kind in ("ascii", "asciz", "char"):
+        for i in range(0, len(inside), B):
+            jobs.append((kind, inside[i:i + B]))
+    # a thin slice of 'char' and 'asciz' for outside characters in the quick tier too
+    if tier == "quick":
+        for kind in ("asciz", "char"):
+            for i in range(0, len(outside), B * 16):
+                jobs.append((kind, outside[i:i + B]))
+    import multiprocessing as mp
+    with mp.get_context("fork").Pool(C.NPROC) as pool:
+        outs = pool.map(_batch_job, jobs, chunksize=8)
+    n_out = n_in = 0
+    for (kind, cps), o in zip(jobs, outs):
+        rep.add_eval(len(cps))
+        if o["outcome"] in ("crash", "hang", "harness-error"):
+            rep.violate(f"e2e-x:{kind}:crash", "assembling character data crashed", {"kind": kind, "codepoints": cps[:8]}, impl=o)
+            continue
+        is_out = cps[0] not in accm
+        if is_out:
+            n_out += len(cps)
+            missing = [cps[k] for k in range(len(cps)) if (k + 1) not in o["bad_lines"]]
+            if o["outcome"] != "failed" or missing:
+                rep.violate(f"e2e-x:{kind}:accepted:{missing[:3]}", "a character outside the bk table did not surface as an 'invalid-character' error on its line",
+                            {"kind": kind, "codepoints_not_refused": missing[:20], "batch_first": cps[0]}, impl={"outcome": o["outcome"], "other": o["other"][:5]})
+        else:
+            n_in += len(cps)
+            exp = []
+            for c in cps:
+                exp.append(accm[c])
+                if kind == "asciz":
+                    exp.append(0)
+            if o["outcome"] != "ok" or list(bytes.fromhex(o["code"])) != exp:
+                got = list(bytes.fromhex(o["code"])) if o.get("code") else None
+                rep.violate(f"e2e-x:{kind}:bytes:{cps[0]}", "characters of the bk table did not assemble to their bk bytes",
+                            {"kind": kind, "codepoints": cps[:10]}, impl={"outcome": o["outcome"], "got": got[:12] if got else None, "errors": o["other"][:5]}, expected=exp[:12])
+    rep.count("e2e-exhaustive:outside-table code points", n_out)
+    rep.count("e2e-exhaustive:inside-table code points", n_in)
+    rep.exhaustive_parts.append(f"every code point below {hex(top)} (except literal-syntax characters and blanks) through .ascii" + ("" if tier == "quick" else ", .asciz and 'c") + " end to end")
